@@ -64,6 +64,10 @@ def type_of(v):
         return (k, v[1])
     if k == 'lam':
         return ('lambda', v[1], v[2])
+    if k == 'left':
+        return ('or', type_of(v[1]), v[2])
+    if k == 'right':
+        return ('or', v[1], type_of(v[2]))
     raise lib.InternalError(f'bad value {v!r}')
 
 
@@ -73,13 +77,13 @@ def is_content_ty(t):
         return True
     if isinstance(t, tuple) and t[0] == 'option':
         return is_content_ty(t[1])
-    if isinstance(t, tuple) and t[0] == 'pair':
+    if isinstance(t, tuple) and t[0] in ('pair', 'or'):
         return is_content_ty(t[1]) and is_content_ty(t[2])
     return False
 
 
 def is_content(v):
-    return v[0] in ('nat', 'str', 'none', 'some', 'pair') and is_content_ty(type_of(v))
+    return v[0] in ('nat', 'str', 'none', 'some', 'pair', 'left', 'right') and is_content_ty(type_of(v))
 
 
 def pushable(t):
@@ -124,8 +128,10 @@ def tickets_in(v):
     elif k == 'pair':
         yield from tickets_in(v[1])
         yield from tickets_in(v[2])
-    elif k == 'some':
+    elif k == 'some' or k == 'left':
         yield from tickets_in(v[1])
+    elif k == 'right':
+        yield from tickets_in(v[2])
     elif k == 'list':
         for x in v[2]:
             yield from tickets_in(x)
@@ -281,6 +287,19 @@ class RefMachine:
             for x in items:
                 self.stack.insert(0, x)
                 self.run(i[1])
+        elif op in ('LEFT', 'RIGHT'):
+            (x,) = self.pop(1)
+            self.stack.insert(0, ('left', x, i[1]) if op == 'LEFT' else ('right', i[1], x))
+        elif op == 'IF_LEFT':
+            (o,) = self.pop(1)
+            if o[0] == 'left':
+                self.stack.insert(0, o[1])
+                self.run(i[1])
+            elif o[0] == 'right':
+                self.stack.insert(0, o[2])
+                self.run(i[2])
+            else:
+                raise Stuck('not an or')
         elif op == 'LAMBDA':
             s.insert(0, ('lam', i[1], i[2], (), tuple(i[3])))
         elif op == 'APPLY':
@@ -403,9 +422,9 @@ def instr_text(i):
     op = i[0]
     if op in ('DUPN', 'DIG', 'DUG'):
         return f'{"DUP" if op == "DUPN" else op} {i[1]}'
-    if op in ('NONE', 'NIL'):
+    if op in ('NONE', 'NIL', 'LEFT', 'RIGHT'):
         return f'{op} {ty_text(i[1])}'
-    if op in ('IF_NONE', 'IF_CONS'):
+    if op in ('IF_NONE', 'IF_CONS', 'IF_LEFT'):
         return f'{op} {{ {prog_text(i[1])} }} {{ {prog_text(i[2])} }}'
     if op == 'LAMBDA':
         return f'LAMBDA {ty_text(i[1])} {ty_text(i[2])} {{ {prog_text(i[3])} }}'
@@ -433,7 +452,7 @@ def coq_cty(t):
         return {'nat': 'CNat', 'string': 'CString'}[t]
     if t[0] == 'option':
         return f'(COption {coq_cty(t[1])})'
-    return f'(CPair {coq_cty(t[1])} {coq_cty(t[2])})'
+    return f'({"COr" if t[0] == "or" else "CPair"} {coq_cty(t[1])} {coq_cty(t[2])})'
 
 
 def coq_cval(c):
@@ -446,6 +465,10 @@ def coq_cval(c):
         return f'(CNone {coq_cty(c[1])})'
     if k == 'some':
         return f'(CSome {coq_cval(c[1])})'
+    if k == 'left':
+        return f'(CLeft {coq_cval(c[1])} {coq_cty(c[2])})'
+    if k == 'right':
+        return f'(CRight {coq_cty(c[1])} {coq_cval(c[2])})'
     return f'(CPairV {coq_cval(c[1])} {coq_cval(c[2])})'
 
 
@@ -456,6 +479,8 @@ def coq_ty(t):
         return f'(TMap {"true" if t[0] == "big_map" else "false"} {coq_ty(t[1])})'
     if t[0] == 'lambda':
         return f'(TLambda {coq_ty(t[1])} {coq_ty(t[2])})'
+    if t[0] == 'or':
+        return f'(TOr {coq_ty(t[1])} {coq_ty(t[2])})'
     if t[0] == 'ticket':
         return f'(TTicket {coq_cty(t[1])})'
     if t[0] == 'pair':
@@ -499,6 +524,10 @@ def coq_val(v):
         return f'(VNone {coq_ty(v[1])})'
     if k == 'list':
         return f'(VList {coq_ty(v[1])} {clist(coq_val(x) for x in v[2])})'
+    if k == 'left':
+        return f'(VLeft {coq_val(v[1])} {coq_ty(v[2])})'
+    if k == 'right':
+        return f'(VRight {coq_ty(v[1])} {coq_val(v[2])})'
     if k == 'bool':
         return f'(VBool {"true" if v[1] else "false"})'
     if k in ('map', 'big_map'):
@@ -511,9 +540,9 @@ def coq_instr(i):
     op = i[0]
     if op in ('DUPN', 'DIG', 'DUG'):
         return f'({op} {cnat(i[1])})'
-    if op in ('NONE', 'NIL'):
+    if op in ('NONE', 'NIL', 'LEFT', 'RIGHT'):
         return f'({op} {coq_ty(i[1])})'
-    if op in ('IF_NONE', 'IF_CONS'):
+    if op in ('IF_NONE', 'IF_CONS', 'IF_LEFT'):
         return f'({op} {coq_prog(i[1])} {coq_prog(i[2])})'
     if op == 'LAMBDA':
         return f'(LAMBDA {coq_ty(i[1])} {coq_ty(i[2])} {coq_prog(i[3])})'
@@ -571,6 +600,8 @@ def canon_ty(e):
         return 'bool'
     if p == 'lambda':
         return ('lambda', canon_ty(e['args'][0]), canon_ty(e['args'][1]))
+    if p == 'or':
+        return ('or', canon_ty(e['args'][0]), canon_ty(e['args'][1]))
     if p in ('map', 'big_map') and e['args'][0]['prim'] == 'nat':
         return (p, canon_ty(e['args'][1]))
     raise ValueError(f'type outside the modelled domain: {p}')
@@ -595,6 +626,9 @@ def canon_item(x):
         return ('bool', bool(x))
     if x.prim == 'lambda':
         return ('lam',)
+    if x.prim == 'or':
+        t = canon_ty(type(x).as_micheline_expr())
+        return ('left', canon_item(x.resolve()), t[2]) if x.is_left() else ('right', t[1], canon_item(x.resolve()))
     if isinstance(x, T.ListType):
         return ('list', canon_ty(type(x).as_micheline_expr()['args'][0]), [canon_item(y) for y in x.items])
     if x.prim == 'address':
@@ -687,7 +721,7 @@ def random_instr(rng, depth=0):
     if k == 22 and depth < 2:
         return (rng.choice(['ITER', 'MAP']), [random_instr(rng, depth + 1) for _ in range(rng.randrange(0, 3))])
     if k in (20, 21) and depth < 2:
-        return (rng.choice(['IF_NONE', 'IF_CONS']), [random_instr(rng, depth + 1) for _ in range(rng.randrange(0, 3))],
+        return (rng.choice(['IF_NONE', 'IF_CONS', 'IF_LEFT']), [random_instr(rng, depth + 1) for _ in range(rng.randrange(0, 3))],
                 [random_instr(rng, depth + 1) for _ in range(rng.randrange(0, 3))])
     return ('PUSH_NAT', rng.choice(AMOUNTS))
 
@@ -703,6 +737,10 @@ def content_prog(c):
         return [('NONE', c[1])]
     if k == 'some':
         return content_prog(c[1]) + [('SOME',)]
+    if k == 'left':
+        return content_prog(c[1]) + [('LEFT', c[2])]
+    if k == 'right':
+        return content_prog(c[2]) + [('RIGHT', c[1])]
     return content_prog(c[2]) + content_prog(c[1]) + [('PAIR',)]
 
 
@@ -715,6 +753,8 @@ RICH = {
     'option (option nat)': OO,
     'pair (option (option nat)) nat': [('pair', x, ('nat', 1)) for x in OO[:3]],
     'option nat': [('none', 'nat'), ('some', ('nat', 0)), ('some', ('nat', 1))],
+    'or nat nat': [('left', ('nat', 1), 'nat'), ('right', 'nat', ('nat', 1)), ('left', ('nat', 0), 'nat')],
+    'or (option nat) string': [('left', ('none', 'nat'), 'string'), ('left', ('some', ('nat', 0)), 'string'), ('right', ('option', 'nat'), ('str', ''))],
     'pair nat string': [('pair', ('nat', 0), ('str', 'a')), ('pair', ('nat', 1), ('str', '')), ('pair', ('nat', 0), ('str', ''))],
 }
 
@@ -789,6 +829,10 @@ def applicable(rng, m, depth):
                 out += [('DIG', n)] * 4
     if top and top[0] in ('some', 'none') and depth < 3:
         out += [('IF_NONE',)] * 6
+    if top and top[0] in ('left', 'right') and depth < 3:
+        out += [('IF_LEFT',)] * 6
+    if top and rng.random() < 0.08:
+        out += [(rng.choice(['LEFT', 'RIGHT']), rng.choice(['nat', 'string', ('ticket', 'nat')]))] * 2
     if top and top[0] == 'list' and depth < 3:
         out += [('IF_CONS',)] * 3 + [('ITER',)] * 3 + [('MAP',)] * 3
     if top and top[0] == 'pair' and depth < 3 and rng.random() < 0.1:
@@ -824,13 +868,15 @@ def gen_block(rng, m, n, depth, p_bad):
                 except (Stuck, Outside):
                     return prog, True
             continue
-        if i[0] in ('IF_NONE', 'IF_CONS') and len(i) == 1:
+        if i[0] in ('IF_NONE', 'IF_CONS', 'IF_LEFT') and len(i) == 1:
             top = m.stack[0]
-            taken_first = (top[0] == 'none') if i[0] == 'IF_NONE' else (top[0] == 'list' and len(top[2]) > 0)
+            taken_first = {'IF_NONE': top[0] == 'none', 'IF_CONS': top[0] == 'list' and len(top[2]) > 0, 'IF_LEFT': top[0] == 'left'}[i[0]]
             # the taken branch follows the machine, the dead branch is blind
             m.pop(1)
             if i[0] == 'IF_NONE' and top[0] == 'some':
                 m.stack.insert(0, top[1])
+            if i[0] == 'IF_LEFT':
+                m.stack.insert(0, top[1] if taken_first else top[2])
             if i[0] == 'IF_CONS' and taken_first:
                 m.stack[0:0] = [top[2][0], ('list', top[1], top[2][1:])]
             taken, stuck = gen_block(rng, m, rng.randrange(0, 4), depth + 1, p_bad)
@@ -1001,6 +1047,12 @@ def split_join_unit_cases(rng, addrs):
     out.append((a0, [('EMPTY_MAP', False, TNt)] + tk(5) + [('SOME',), ('PUSH_NAT', 0), ('UPDATE',), ('PUSH_BOOL', True),
                      ('LOOP', [('NONE', TNt), ('PUSH_NAT', 0), ('GET_AND_UPDATE',), ('IF_NONE', [('PUSH_BOOL', False)], [('DROP',), ('PUSH_BOOL', True)])])]))
     out.append((a0, [('PUSH_NAT', 1), ('LOOP', [])]))
+    for wrapi in (('LEFT', 'nat'), ('RIGHT', 'nat')):
+        out.append((a0, tk(5) + [wrapi, ('DUP',)]))
+        out.append((a0, tk(5) + [wrapi, ('IF_LEFT', [('READ_TICKET',)], [('READ_TICKET',)])]))
+        out.append((a0, tk(5) + [wrapi, ('IF_LEFT', [('DUP',)], [('DROP',), ('PUSH_NAT', 1)])]))
+    out.append((a0, [('PUSH_NAT', 1), ('LEFT', TNt), ('DUP',)]))
+    out.append((a0, [('PUSH_NAT', 1), ('IF_LEFT', [], [])]))
     # maps and big_maps holding tickets (the shapes of defect #50 and of the oracle-only stream, now inside the model)
     TN = ('ticket', 'nat')
     take = lambda k: [('NONE', TN), ('PUSH_NAT', k), ('GET_AND_UPDATE',)]  # noqa: E731
@@ -1259,7 +1311,7 @@ def has(prog, names):
     for i in prog:
         if i[0] in names:
             return True
-        if i[0] in ('IF_NONE', 'IF_CONS') and (has(i[1], names) or has(i[2], names)):
+        if i[0] in ('IF_NONE', 'IF_CONS', 'IF_LEFT') and (has(i[1], names) or has(i[2], names)):
             return True
         if i[0] in ('ITER', 'MAP', 'LOOP') and has(i[1], names):
             return True
@@ -1319,7 +1371,7 @@ def run(ctx: lib.Ctx) -> None:
         nt = has(prog, ('SPLIT_TICKET', 'JOIN_TICKETS', 'READ_TICKET')) or (has(prog, ('TICKET',)) and has(prog, ('DUP', 'DUPN')))
         ctx.case((addr, repr(prog)), nontrivial=nt, kind=f'{kind}:{obs[0]}',
                  sample={'self': addr, 'program': prog_text([i for i in prog])[:400], 'result': to_json(obs)})
-        for name in ('TICKET', 'READ_TICKET', 'SPLIT_TICKET', 'JOIN_TICKETS', 'DUP', 'DUPN', 'IF_NONE', 'IF_CONS', 'CONS', 'ITER', 'MAP', 'SELF_IS', 'EMPTY_MAP', 'UPDATE', 'GET_AND_UPDATE', 'GET', 'MEM', 'LAMBDA', 'APPLY', 'EXEC', 'LOOP'):
+        for name in ('TICKET', 'READ_TICKET', 'SPLIT_TICKET', 'JOIN_TICKETS', 'DUP', 'DUPN', 'IF_NONE', 'IF_CONS', 'CONS', 'ITER', 'MAP', 'SELF_IS', 'EMPTY_MAP', 'UPDATE', 'GET_AND_UPDATE', 'GET', 'MEM', 'LAMBDA', 'APPLY', 'EXEC', 'LOOP', 'LEFT', 'IF_LEFT'):
             if has(prog, (name,)):
                 ctx.dist['uses ' + name] += 1
         if ref_run(addr, prog)[1].lenient:
